@@ -145,6 +145,15 @@ int run(const Args& a, Recorder& rec) {
             }
         }
     }
+    // S_z built over a SUBSET of the modes (the local S_z of a site): every assignment of each mode to {up list, down list, neither}, every Fock state
+    for (int M = 2; M <= 4; ++M) { int D = 1 << M; long cnt = 1; for (int k = 0; k < M; ++k) cnt *= 3;
+        for (long code = 0; code < cnt; ++code) { if (!mine()) continue; std::vector<ParticleIndex> ups, dns; long cdx = code; for (int i = 0; i < M; ++i) { int r = cdx % 3; cdx /= 3; if (r == 0) ups.push_back(i); else if (r == 1) dns.push_back(i); }
+            if (ups.empty() || ups.size() != dns.size()) continue; rec.evaluations++;      // the constructor demands lists of equal length
+            OperatorPresets::Sz S(ups, dns); Mat ref = Mat::Zero(D, D); for (auto i : ups) ref += 0.5 * refed::n_op(M, i); for (auto i : dns) ref -= 0.5 * refed::n_op(M, i);
+            Mat m2 = Mat::Zero(D, D), m3 = Mat::Zero(D, D);
+            for (unsigned long k = 0; k < (unsigned long)D; ++k) { FockState ket(M, k); m3(k, k) = cd(S.getMatrixElement(ket)); std::map<FockState, MelemType> r = S.actRight(ket); for (auto& kv : r) m2(kv.first.to_ulong(), k) += cd(kv.second); }
+            const Operator& base = S; Mat generic = lib_matrix_act(Operator(base), M);
+            if (maxabs(m2 - ref) > 1e-14 || maxabs(m3 - ref) > 1e-14 || maxabs(generic - ref) > 1e-14) { std::string d; for (auto i : ups) d += "u" + std::to_string(i); for (auto i : dns) d += "d" + std::to_string(i); rec.violation("C05:Sz-operator:partial", "OperatorPresets::Sz over a subset of the modes does not act like sum 1/2 n_up - 1/2 n_down", "M=" + std::to_string(M) + " Sz(" + d + ")"); } } }
     // wide index spaces: the same algebra on 64 single-particle modes (no matrices: the action on Fock states is compared with a
     // bit-mask Jordan-Wigner reference) -- all monomials of length <= 3 over the modes {0,1,30,31,32,33,62,63} x all occupations of
     // those modes, on an empty and on a completely filled background (word boundaries of the bit arithmetic at 31/32 and 63)
